@@ -134,7 +134,7 @@ def rule_table(ctx):
                 ctx.ob("FileSet.get_filename[%s]" % p, False, "placeholder %s is not passed to format()" % p, "every documented placeholder is written", node=fc[0], func=f)
                 continue
             try:
-                obj, kind, width, extra = writer_entry(p, v, sv, ev)
+                obj, kind, width, extra = writer_entry(p, flow.resolve(v, at=fc[0], depth=2, stop=(sv, ev)), sv, ev)
             except AnalysisError as e:
                 raise
             rw = _regex_width(regex.get(p, ""))
